@@ -45,7 +45,9 @@ def build_results(rng, ps):
     n_exp = rng.randint(1, min(4, len(ps)))
     cuts = sorted(rng.sample(range(1, len(ps)), n_exp - 1)) if n_exp > 1 else []
     groups = [ps[a:b] for a, b in zip([0] + cuts, cuts + [len(ps)])]
-    names = ["m_a", "m_b", "m_c", "m_d", "m_e", "m_f", "m_g", "m_h", "m_i", "m_j", "m_k", "m_l"]
+    # some names are substrings of others ("m_", "m_a" in "m_ab"): a metrics selection given as one string must
+    # select exactly that name, not every name contained in it
+    names = ["m_a", "m_ab", "m_", "m_abc", "m_e", "m_f", "m_g", "m_h", "m_i", "m_j", "m_k", "m_l"]
     results, keys = {}, []
     for gi, g in enumerate(groups):
         er = {}
